@@ -457,6 +457,28 @@ func robustRun(args []string) error {
 			us := time.Since(t0).Microseconds()
 			runtime.ReadMemStats(&ms1)
 			alloc := int64(ms1.TotalAlloc-ms0.TotalAlloc) / 1024
+			// wall time depends on what else the machine is doing: a call that returned but took too long is measured
+			// again (twice at most) and the shortest time counts; a slow code path is slow every time, a busy machine is not
+			for retry := 0; retry < 2 && outcome == "ok" && us > 2000000+20*int64(len(data)); retry++ {
+				t1 := time.Now()
+				wdMu.Lock()
+				wdName, wdStart = ep.name, t1
+				wdMu.Unlock()
+				func() {
+					defer func() {
+						if r := recover(); r != nil {
+							outcome, what = "panic", fmt.Sprint(r)
+						}
+					}()
+					ep.f(data)
+				}()
+				wdMu.Lock()
+				wdName = ""
+				wdMu.Unlock()
+				if u := time.Since(t1).Microseconds(); u < us {
+					us = u
+				}
+			}
 			over := us > 2000000+20*int64(len(data)) || alloc > 16384+int64(len(data))
 			if outcome != "ok" || over {
 				// one event per failing entry point (the summary event below covers the others)
